@@ -416,6 +416,11 @@ func (eng *Engine) verifyFunctionWith(fn *ssa.Function, modes Modes, spec map[st
 	if ct != nil && modes.Post {
 		for _, c := range ct.Cuts {
 			if !top.firedCuts[c] {
+				if c.Claim {
+					// a claim carries part of the property: not being able to state it is reported
+					g.oblige("claim", fmt.Sprintf("%s:anchor-missing", clauseLabel(c.Cl, 0, 0)), "true", "false", eng.prog.Fset.Position(fn.Pos()), fmt.Sprintf("claim cannot be placed: no statement `%s` (nor one resembling it) in %s: %s", c.Anchor, shortFn(fn), c.Cl.Text))
+					continue
+				}
 				// intermediate assertions are proof steps: when the statement they are anchored on is gone the step is
 				// skipped (the postconditions still have to be proved, without its help)
 				g.note("intermediate assertion skipped: no statement `%s` in %s (%s)", c.Anchor, shortFn(fn), c.Cl.Where)
